@@ -48,9 +48,9 @@ def mu (net : Net) (s : State) : Nat := s.pc.length + chanSum net s.chans + node
 @[simp] theorem ndata_app_data (l : List Msg) : ndata (l ++ [.data]) = ndata l + 1 := by
   simp [ndata, List.count_append]
 @[simp] theorem ndata_cons_stop (l : List Msg) : ndata (.stop :: l) = ndata l := by
-  simp [ndata, List.count_cons]
+  simp [ndata]
 @[simp] theorem ndata_cons_data (l : List Msg) : ndata (.data :: l) = ndata l + 1 := by
-  simp [ndata, List.count_cons]
+  simp [ndata]
 
 theorem chanSum_same (net : Net) (ch : Nat → List Msg) (c : Nat) (l : List Msg) (h : ndata l = ndata (ch c)) :
     chanSum net (upd ch c l) = chanSum net ch := by
